@@ -10,6 +10,13 @@ Theorem C03_legacy_refines_spec : forall t idx script ht,
 Proof. exact legacy_refines_spec. Qed.
 Print Assumptions C03_legacy_refines_spec.
 
+(* legacy with ANYONECANPAY (ALL/NONE at any input, SINGLE on input 0): the input vector is the signing input alone with
+   its own sequence; the digest specification dispatches on the ANYONECANPAY bit *)
+Theorem C03_legacy_acp_refines_spec : forall t idx script ht,
+  legacy_acp_domain t idx ht -> preimage_legacy t idx script ht = spec_legacy_acp_preimage t idx script ht.
+Proof. exact legacy_acp_refines_spec. Qed.
+Print Assumptions C03_legacy_acp_refines_spec.
+
 Theorem C03_v0_refines_spec : forall t idx script value ht,
   ht_rp ht = false -> preimage_v0 dsha256 t idx script value ht = spec_v0_preimage t idx script value ht.
 Proof. exact v0_refines_spec. Qed.
